@@ -90,10 +90,9 @@ def gen_events(rng, prog, n):
             if d.get("foreign"):
                 # back to the identical memento function it was before
                 cur["defs"][x] = d = copy.deepcopy(d["was"])
-            elif d["kind"] == "memento" and False:
-                # (a plain function of another package, for which memento keeps no rule, is only used in the directed scenarios:
-                # whatever is (re)computed while a symbol is bound to such a function does not watch the symbol, and the switch
-                # back runs into known finding K5 — the random histories stay free of it)
+            elif d["kind"] == "memento" and rng.random() < 0.35:
+                # a plain function of another package: memento keeps no rule for it, but watches the symbol (fix F27; before it,
+                # the switch back ran into the then known finding K5)
                 cur["defs"][x] = d = dict(kind="plain", where=d["where"], foreign=True, wrapped=False, const=0, setc=None, tup=None, dflt=None,
                                           kwd=None, lam=None, nest=None, refs=[], was=copy.deepcopy(d))
                 clones = {c: b for c, b in clones.items() if b != x}
@@ -114,8 +113,6 @@ def gen_events(rng, prog, n):
             if not al:
                 continue
             t = rng.choice(al)
-            if cur["defs"].get(cur.get("alias_map", {}).get(t, t), {}).get("foreign"):
-                continue                  # the alias is bound to an untracked function at the moment: K5
             same = [x for x in fns if cur["defs"][x]["where"] == cur["defs"][t]["where"]]
             u = rng.choice(same)
             cur.setdefault("alias_map", {})[t] = u
@@ -157,9 +154,9 @@ def k5_prone(prog, x):
 
 
 def k5_scenarios():
-    """KNOWN FINDING K5 (C13): a symbol that is bound to an object memento does not track (a plain function of another
-    package) when a dependent's version is computed is not watched; binding it to a tracked object afterwards is not noticed
-    until the next registration. (a) a self-recursive memento function replaced by a foreign plain function and defined
+    """The histories of the former known finding K5 (repaired by fix F27; now run like every other scenario, model included):
+    a symbol that is bound to an object memento does not track (a plain function of another package) when a dependent's
+    version is computed was not watched; binding it to a tracked object afterwards was not noticed until the next registration. (a) a self-recursive memento function replaced by a foreign plain function and defined
     again: its decorator computes the version while its own name is still bound to the foreign function.
     (b) an alias of a function that became foreign is re-bound to a memento function."""
     f = c01._fn
@@ -169,13 +166,13 @@ def k5_scenarios():
     a0 = dict(defs={"m1": f("memento", [["m1", "bare"]]), "m2": f("memento", [["m1", "bare"]])}, order=["m1", "m2"])
     a1 = copy.deepcopy(a0); a1["defs"]["m1"] = foreign(a0["defs"]["m1"])
     a2 = copy.deepcopy(a0)
-    out.append(dict(known="K5a", note="self-recursive memento function -> foreign plain function -> identical memento function", program=a0,
+    out.append(dict(formerly_known="K5a", note="self-recursive memento function -> foreign plain function -> identical memento function", program=a0,
                     events=[[["switch-kind", "m1", "foreign"], c01.event_actions(a0, a1), a1, {}],
                             [["switch-kind", "m1", "memento"], c01.event_actions(a1, a2), a2, {}]]))
     b0 = dict(defs={"m1": f("memento", []), "m2": f("memento", [], const=2), "m3": f("memento", [["m1", "alias"]])}, order=["m1", "m2", "m3"])
     b1 = copy.deepcopy(b0); b1["defs"]["m1"] = foreign(b0["defs"]["m1"])
     b2 = copy.deepcopy(b1); b2["alias_map"] = {"m1": "m2"}
-    out.append(dict(known="K5b", note="alias of a function that became foreign re-bound to a memento function", program=b0,
+    out.append(dict(formerly_known="K5b", note="alias of a function that became foreign re-bound to a memento function", program=b0,
                     events=[[["switch-kind", "m1", "foreign"], c01.event_actions(b0, b1), b1, {}],
                             [["rebind-alias", "m1", "m2"], [["exec", "mod", "a_m1 = m2\n"]], b2, {}]]))
     return out
@@ -628,6 +625,9 @@ class CacheModel:
         if d["kind"] == "memento":
             e = common.hexs(d["explicit"]) if d.get("explicit") else "auto"
             self.inst[name] = int(self.send(("dm %d %s %d %s" % (n, e, tok, rs)).strip()))
+        elif d.get("foreign"):
+            self.inst.pop(name, None)
+            self.send("df %d %d" % (n, tok))          # a function of another package: no rule, the symbol is watched (F27)
         else:
             self.inst.pop(name, None)
             self.send(("dp %d %d %s" % (n, tok, rs)).strip())
@@ -658,7 +658,7 @@ class CacheModel:
                 if m:
                     self.send("alias %d %d" % (self.nid(["alias", a[1], m.group(1)]), self.nid(m.group(2))))
                     continue
-                m = re.search(r"^def (\w+)\(", a[2], re.M) or re.match(r"(\w+) = lambda", a[2])
+                m = re.search(r"^def (\w+)\(", a[2], re.M) or re.match(r"(\w+) = lambda", a[2]) or re.match(r"(\w+) = vrec\.foreign", a[2])
                 self.define(m.group(1), after)
             elif a[0] == "clone":
                 self.inst[a[1]] = int(self.send("clone %d" % self.inst[a[2]]))
@@ -672,8 +672,6 @@ class CacheModel:
 def model_replay(prog, marks, events, out):
     """the same events through the Lean model of the version cache: the equality pattern of the versions the real
     objects report (over the whole scenario, per function) must be the model's"""
-    if any(d.get("foreign") for (_, _, after, _) in marks for d in after["defs"].values()):
-        return [], 0           # functions of other packages are outside the model's program class (no rule is made for them)
     cm = CacheModel()
     pairs = []
     try:
